@@ -34,8 +34,9 @@ RULE = ("Polygons are built by construction in a local frame and then scaled (1e
         "(touching the axis, or 0.01..1e4 sizes away; <=1e2 for the sampling and grid sub-checks while finding "
         "C17-oob-triangle-index is open, <=1e5 afterwards) and a height offset of either sign: "
         "triangles, axis-aligned rectangles, convex polygons (affine images of polygons inscribed in a circle), star-shaped "
-        "polygons with 4-10 vertices and radii 0.15..1 (mostly concave) and rotated/sheared/mirrored non-star templates "
-        "(L, U, comb, spiral, dart, bolt; 4-12 vertices); primitive_type csg or mesh (mesh only when it gives 3..32 toroidal "
+        "polygons with 4-10 vertices and radii 0.15..1 (mostly concave) and rotated/sheared/mirrored concave templates, mostly "
+        "not star-shaped (general position: dart, bolt, ell, hook, coil, fork; with collinear vertices: L, U, comb, spiral "
+        "- the latter only once finding C17-ear-clipping-collinear is closed; 4-12 vertices); primitive_type csg or mesh (mesh only when it gives 3..32 toroidal "
         "segments). geometry: every one of the 2n vertex orders (n cyclic rotations x 2 orientations) is constructed (mesh "
         "cases: one order per orientation as mesh, the others as csg) and compared with the exact rational area/centroid/volume; non-trivial = concave or >=5 vertices. sampling: one drawn "
         "vertex order, raysect RNG seeded from the case, N in {4000, 20000}; non-trivial = >=4 vertices, order rotated or "
@@ -251,15 +252,23 @@ def ear_clip(P):
     return tris
 
 
+# non-star-shaped (and a few star-shaped) concave outlines on an integer lattice, counter-clockwise.  The first group has
+# three or more vertices on a common line (rectilinear outlines); the second group is in general position (no three
+# vertices collinear, smallest |orient| >= 16 lattice units^2 on a ~100 unit outline).
 _TEMPLATES = {
     "L": [(0, 0), (2, 0), (2, 1), (1, 1), (1, 2), (0, 2)],
     "U": [(0, 0), (3, 0), (3, 3), (2, 3), (2, 1), (1, 1), (1, 3), (0, 3)],
     "comb": [(0, 0), (5, 0), (5, 3), (4, 3), (4, 1), (3, 1), (3, 3), (2, 3), (2, 1), (1, 1), (1, 3), (0, 3)],
     "spiral": [(0, 0), (4, 0), (4, 4), (1, 4), (1, 2), (2, 2), (2, 3), (3, 3), (3, 1), (0, 1)],
     "dart": [(0, 0), (2, 1), (4, 0), (2, 4)],
-    "bolt": [(0, 0), (4, 1), (3, 2), (6, 4), (1, 3), (2, 2)],
+    "bolt": [(0, -2), (40, 9), (32, 22), (62, 42), (9, 30), (20, 20)],
+    "ell": [(0, -1), (20, -2), (22, 12), (10, 10), (8, 18), (0, 18)],
+    "hook": [(2, 1), (70, 10), (80, 89), (52, 80), (58, 28), (19, 21), (31, 100), (-8, 70)],
+    "coil": [(1, -1), (92, 8), (79, 99), (19, 92), (32, 39), (50, 52), (38, 68), (70, 61), (58, 22), (11, 32)],
+    "fork": [(-1, 1), (112, 10), (98, 81), (80, 72), (88, 30), (68, 21), (60, 92), (38, 81), (49, 28), (22, 19), (29, 102), (-10, 88)],
 }
 TEMPLATES = {}
+GENERAL_POSITION = set()
 for _name, _pts in sorted(_TEMPLATES.items()):
     for _mirror in (0, 1):
         _p = [(-x, y) for x, y in reversed(_pts)] if _mirror else list(_pts)
@@ -270,7 +279,14 @@ for _name, _pts in sorted(_TEMPLATES.items()):
         assert sum(_orient(_p[a], _p[b], _p[c]) for a, b, c in _t) == \
             sum(_orient((0, 0), _p[i], _p[(i + 1) % len(_p)]) for i in range(len(_p))), _name
         TEMPLATES["%s/%d" % (_name, _mirror)] = (_p, _t)
-TEMPLATE_KEYS = sorted(TEMPLATES)
+        if not any(_orient(_p[a], _p[b], _p[c]) == 0 for a in range(len(_p)) for b in range(a) for c in range(b)):
+            GENERAL_POSITION.add("%s/%d" % (_name, _mirror))
+assert len(GENERAL_POSITION) == 12, sorted(GENERAL_POSITION)
+# open finding C17-ear-clipping-collinear: raysect's ear clipping (called by the voxel constructor) raises "no ear" for
+# some vertex orders of outlines with >= 3 (nearly) collinear non-adjacent vertices; while open only the general-position
+# templates are generated.
+COLLINEAR_OPEN = is_open("C17-ear-clipping-collinear")
+TEMPLATE_KEYS = sorted(GENERAL_POSITION) if COLLINEAR_OPEN else sorted(TEMPLATES)
 
 
 # ------------------------------------------------------------------------------------------------ strategies
@@ -293,7 +309,8 @@ def local_shape(draw, kinds):
         pts, tris = TEMPLATES[key]
         th = draw(st.one_of(st.sampled_from([0.0, math.pi / 2, math.pi, -math.pi / 2]), st.floats(-math.pi, math.pi)))
         k = draw(st.one_of(st.just(0.0), st.floats(-0.5, 0.5)))
-        sc = 1.0 / 6.0
+        ext = max(max(abs(x), abs(y)) for x, y in pts)
+        sc = 1.0 / (1.2 * ext)
         c, s = (round(math.cos(th)), round(math.sin(th))) if th in (0.0, math.pi / 2, math.pi, -math.pi / 2) \
             else (math.cos(th), math.sin(th))
         loc = []
@@ -512,6 +529,10 @@ def _labels(ctx, poly, ex):
     conc = is_concave(ex)
     if conc:
         ctx.label("concave")
+    if poly["kind"] == "tmpl":
+        ctx.label("tmpl=" + str(poly.get("tmpl", "?")).split("/")[0])
+        if COLLINEAR_OPEN:
+            ctx.label("excluded_known:collinear-templates")
     if min(p[0] for p in poly["verts"]) == 0.0:
         ctx.label("on-axis")
     return conc
@@ -917,7 +938,7 @@ def run_grid(case, ctx):
 
 
 SUBCHECKS = {
-    "geometry": Given(geometry_strategy, run_geometry, quick=2400, thorough=40000),
-    "sampling": Given(sampling_strategy, isolated("sampling", run_sampling), quick=2400, thorough=36000),
-    "grid": Given(grid_strategy, isolated("grid", run_grid), quick=1600, thorough=20000),
+    "geometry": Given(geometry_strategy, run_geometry, quick=2400, thorough=30000),
+    "sampling": Given(sampling_strategy, isolated("sampling", run_sampling), quick=2400, thorough=24000),
+    "grid": Given(grid_strategy, isolated("grid", run_grid), quick=1600, thorough=12000),
 }
